@@ -211,7 +211,12 @@ def make_object(rng, rs, variant):
     cell = make_cell(rng, variant)
     calc = variant.get("calculator")
     units = get_default_physical_units(calc)
-    ph = Phonopy(cell, supercell_matrix=np.diag(variant["smat"]), primitive_matrix="P", factor=units["factor"], calculator=calc, log_level=0)
+    smat = np.diag(variant["smat"])
+    if variant.get("relabel"):
+        # the same crystal described by other lattice vectors (left-handed for det -1, sheared, permuted)
+        cell, _qmap, smap = gen.relabelled_cell(cell, gen.UNIMODULAR[variant["relabel"]])
+        smat = smap(smat)
+    ph = Phonopy(cell, supercell_matrix=smat, primitive_matrix=variant.get("pmat", "P"), factor=units["factor"], calculator=calc, log_level=0)
     scale = variant.get("scale", 1.0)
     fc_model = gen.pair_fc(ph.supercell, 4.6)
     dsk = variant.get("dataset")
@@ -1190,6 +1195,66 @@ def part_multidump(run, rng, rs, lines, meta):
 
 
 # --------------------------------------------------------------------------
+# part J: description invariance — round trips of objects on left-handed / sheared / permuted unit cells
+# --------------------------------------------------------------------------
+
+def part_relabel(run, rng, rs, lines, meta):
+    from phonopy import file_IO
+    from phonopy.structure.symmetry import symmetrize_borns_and_epsilon
+
+    thorough = run.tier == "thorough"
+    det_minus = ["swap12", "negate3", "invert"]
+    det_plus = ["shear", "cyclic"]
+    picks = [rng.choice(det_minus), rng.choice(det_plus), rng.choice(det_minus + det_plus)]
+    if thorough:
+        picks = det_minus + det_plus + [rng.choice(det_minus) for _ in range(3)]
+    crystals = [("nacl", [1, 1, 1], "auto"), ("nacl_prim", [2, 1, 1], "P"), ("cscl", [1, 1, 2], "P"), ("bcc", [1, 1, 1], "auto")]
+    for i, mname in enumerate(picks):
+        cr = crystals[0] if i == 0 else crystals[rng.randrange(len(crystals))]   # always one centred left-handed cell with 'auto'
+        polar = cr[0] != "bcc"
+        v = dict(crystal=cr[0], smat=cr[1], pmat=cr[2], relabel=mname, dataset=rng.choice(["t1", "t1-energy", "t2"]), fc=rng.choice(["full", "compact", "produced"]),
+                 settings=rng.choice([{}, {"force_constants": True}]), nac=("default" if polar else None), nac_factor=14.4, nac_method=rng.choice([None, "wang"]),
+                 compression=rng.choice([False, True]), extended=False, masses=rng.random() < 0.5, magmoms=None, calculator=None, scale=1.0, fc_noise=False)
+        if v["fc"] == "produced":
+            v["dataset"] = "t1"
+        case = dict(v, note="unit cell relabelled by gen.UNIMODULAR[%r] (det %+d): %s" % (
+            mname, int(round(np.linalg.det(np.array(gen.UNIMODULAR[mname])))), "left-handed" if mname in det_minus else "right-handed"))
+        ph = make_object(rng, rs, v)
+        if ph.unitcell.volume * (1 if mname in det_plus else -1) <= 0:
+            run.broke("harness", "relabelled cell has the wrong handedness", case)
+        roundtrip(run, lines, meta, ph, v, case)
+        # ---- BORN on the (left-handed) primitive cell: symmetry expansion of the independent atoms
+        if polar:
+            prim = ph.primitive
+            npa = len(prim)
+            born, eps = symmetrize_borns_and_epsilon(rs.normal(size=(npa, 3, 3)), rs.normal(size=(3, 3)) * 0.3 + np.eye(3) * 3, prim, symprec=1e-5)
+            with TmpDir():
+                file_IO.write_BORN(prim, born, eps, filename="BORN")
+                nb = file_IO.parse_BORN(prim, filename="BORN")
+                fn = ph.save("cell.yaml", settings={"force_constants": True})
+                import phonopy
+
+                p2 = phonopy.load(fn, produce_fc=False, log_level=0)    # BORN in the current directory
+            for how, got in (("write_BORN/parse_BORN", nb), ("phonopy.load with BORN in the current directory", p2.nac_params if ph.nac_params is None else nb)):
+                if got is None or maxdiff(got["born"], born) > 5e-8 or maxdiff(got["dielectric"], eps) > 5e-8:
+                    run.violation("file_IO.get_BORN_lines/parse_BORN", "born-not-reproduced",
+                                  "%s on a relabelled (%s) cell: Born charges differ by %.3g" % (how, mname, float("inf") if got is None else maxdiff(got["born"], born)),
+                                  dict(case, born=born.tolist(), epsilon=eps.tolist()))
+        # ---- FORCE_CONSTANTS / hdf5 in the compact layout of this description
+        if ph.force_constants is not None:
+            p2s = np.array(ph.primitive.p2s_map, dtype="intc")
+            with TmpDir():
+                file_IO.write_FORCE_CONSTANTS(ph.force_constants, filename="FORCE_CONSTANTS", p2s_map=p2s)
+                b = file_IO.parse_FORCE_CONSTANTS(filename="FORCE_CONSTANTS", p2s_map=p2s)
+                file_IO.write_force_constants_to_hdf5(ph.force_constants, filename="fc.hdf5", p2s_map=p2s)
+                h = file_IO.read_force_constants_hdf5(filename="fc.hdf5", p2s_map=p2s)
+            if not within_decimals(b, ph.force_constants, 15) or maxdiff(h, ph.force_constants) != 0:
+                run.violation("file_IO.write_FORCE_CONSTANTS/parse_FORCE_CONSTANTS", "not-reproduced", "force constants of a relabelled (%s) cell do not parse back" % mname, case)
+        run.case(("relabel", mname, repr(sorted((k, str(x)) for k, x in v.items()))), nontrivial=True)
+        run.count("relabelled descriptions: %s on %s (primitive_matrix=%s)" % (mname, cr[0], cr[2]))
+
+
+# --------------------------------------------------------------------------
 # main
 # --------------------------------------------------------------------------
 
@@ -1242,6 +1307,7 @@ def main(run):
     part_fileio(run, rng, rs, lines, meta)
     t2 = time.time()
     part_multidump(run, rng, rs, lines, meta)
+    part_relabel(run, rng, rs, lines, meta)
     part_saveload(run, rng, rs, lines, meta)
     t3 = time.time()
     part_priority(run, rng, rs, lines, meta)
